@@ -33,12 +33,15 @@ THEOREMS = [f'Gnpy.Chain.{t}' for t in (
     'redesign_eol_counterexample', 'redesign_eol_drift', 'simparams_restored', 'simparams_restored_any_prior',
     'simparams_restored_many', 'simparams_during', 'reload_rejects_dangling', 'export_keeps_lumped_losses',
     'export_drops_lumped_losses_fails_old', 'export_reload_design_bands', 'export_reload_design_load',
-    'export_single_design_band_fails_old')]
+    'export_single_design_band_fails_old', 'export_reload_design_bands_transceiver',
+    'export_transceiver_design_bands_fails_old')]
 RULE = ('cases from one PRNG: (a) 60 % topologies/configurations of C08 (Raman crash inputs excluded, EOL = 0 in 75 % of '
         'them; half with cut fibres carrying att_in / lumped losses, 40 % drawn with the multiband switch (C+L ROADMs, '
         'Multiband_amplifiers, explicit single design bands), 25 % with own design bands/spacings on ROADMs; 12 % gain-mode '
         'lines with an operator out_voa followed by an amplifier without type_variety whose operator gain puts its output '
-        'within out_voa dB of a p_max) taken through: a design of the topology under ANOTHER library (same amplifier names '
+        'within out_voa dB of a p_max; 5 % C+L lines without ROADMs between two transceivers, the source transceiver stating '
+        'design bands narrower than the amplifiers\' (design_bands / per_degree_design_bands), Raman flag of the process-wide '
+        'SimParams on in 65 % of them) taken through: a design of the topology under ANOTHER library (same amplifier names '
         'and gain ranges, other noise figures / p_max), the design, a second design with the same library object, a what-if '
         'design with a power override on that library object and the design again, again the other library, a design under a '
         'fresh copy of the library, in 25 % a design in a fresh interpreter (all must equal the first design exactly), a '
@@ -89,7 +92,9 @@ def gen(rng, tier, widen=False):
         c['kind'] = 'malformed'
         c['drop'] = rng.random()
         return c
-    if r < 0.48:
+    if r < 0.45:
+        return gen_trxline(rng)
+    if r < 0.52:
         c = gen_gain_window(rng)
     else:
         # "every topology and configuration as in C08": also long fibres that are cut, carrying att_in / lumped losses, and
@@ -121,6 +126,96 @@ def gen_gain_window(rng):
         a1.pop('type_variety', None)
     c['shape'] = 'gain-window'
     return c
+
+
+TRX_BANDS = [{'f_min': 191.3e12, 'f_max': 195.1e12, 'spacing': 50e9}, {'f_min': 187.0e12, 'f_max': 190.0e12, 'spacing': 50e9}]
+RAMAN_FLAG_ON = {"raman_params": {"flag": True, "result_spatial_resolution": 10e3, "solver_spatial_resolution": 50},
+                 "nli_params": {"method": "ggn_spectrally_separated", "dispersion_tolerance": 1, "phase_shift_tolerance": 0.1,
+                                "computed_channels": [1, 18, 37, 56, 75]}}
+
+
+def gen_trxline(rng):
+    """a C+L line WITHOUT ROADMs: transceiver -> Multiband_amplifier -> (Fiber -> Multiband_amplifier) x 2-3 -> transceiver,
+    all amplifiers blank; the source transceiver states the design bands (design_bands, or per_degree_design_bands keyed by
+    the first amplifier), narrower than the bands of the amplifiers the design will choose; in 65 % the Raman flag of the
+    process-wide SimParams is on (the design then computes the SRS power deviation over the design band)"""
+    c_max = rng.choice([195.1e12, 195.1e12, 195.0e12, 194.5e12])
+    l_min = rng.choice([187.0e12, 187.0e12, 187.5e12])
+    bands = [dict(TRX_BANDS[0], f_max=c_max), dict(TRX_BANDS[1], f_min=l_min)]
+    return {'kind': 'trxline', 'spans': [rng.choice([60.0, 80.0, 80.0, 100.0, 70.0]) for _ in range(rng.choice([2, 3, 3]))],
+            'where': rng.choice(['design_bands', 'per_degree_design_bands']), 'bands': bands,
+            'raman_flag': rng.random() < 0.65, 'rounds': rng.choice([1, 1, 2]),
+            'power_mode': rng.random() < 0.8}
+
+
+def trxline_topology(case):
+    els = [nets.trx('TA'), nets.trx('TB')]
+    cxs = []
+    amp = lambda i: {'uid': f'mb {i}', 'type': 'Multiband_amplifier', 'amplifiers': [], 'metadata': nets.loc()}  # noqa: E731
+    line = [amp(0)]
+    for i, km in enumerate(case['spans']):
+        line.append(dict(nets.fiber(f'fib {i}', km, con_in=0.5, con_out=0.5), metadata=nets.loc()))
+        line.append(amp(i + 1))
+    nets.chain(els, cxs, 'TA', 'TB', line)
+    ta = els[0]
+    ta['params'] = ({'design_bands': copy.deepcopy(case['bands'])} if case['where'] == 'design_bands'
+                    else {'per_degree_design_bands': {'mb 0': copy.deepcopy(case['bands'])}})
+    return {'elements': els, 'connections': cxs}
+
+
+def run_trxline(case, drv):
+    """monitor only (per-band amplifiers are outside the model): the same input twice, and export/reload/redesign rounds
+    must give the same exported settings; SimParams left as found"""
+    from gnpy.core.parameters import SimParams
+    from gnpy.tools.json_io import network_to_json, network_from_json
+    from gnpy.tools.worker_utils import designed_network
+    res = Result()
+
+    def design(doc):
+        eq = nets.eqpt('eqpt_config_multiband.json')
+        eq['Span']['default'].power_mode = bool(case['power_mode'])
+        net = network_from_json(jcopy(doc), eq)
+        designed_network(eq, net)
+        return jcopy(network_to_json(net))
+    try:
+        SimParams.set_params(copy.deepcopy(RAMAN_FLAG_ON) if case['raman_flag'] else {})
+        before = sim_snapshot()
+        topo = trxline_topology(case)
+        try:
+            j1 = design(topo)
+        except Exception as e:      # noqa: BLE001
+            res.fail(f'design raised: designed_network failed with {err_kind(e)} on a well-formed topology: {str(e)[:120]}')
+            return res
+        try:
+            j1b = design(topo)
+            if j1b != j1:
+                res.fail(f'twice: a second design of the same input differs: {json_diffs(j1, j1b, tol=0.0)[:3]}')
+        except Exception as e:      # noqa: BLE001
+            res.fail(f'twice: a second design of the same input raised {err_kind(e)}')
+        jk = j1
+        n_amp = sum(1 for e in j1['elements'] if e['type'] == 'Multiband_amplifier')
+        rank = {e['uid']: n_amp for e in j1['elements']}
+        rounds_done = 0
+        for rnd in range(case['rounds']):
+            try:
+                j2 = design(jk)
+            except Exception as e:      # noqa: BLE001
+                res.fail(f'reload: round {rnd + 1}: the exported design cannot be loaded and designed again: '
+                         f'{err_kind(e)}: {str(e)[:120]}')
+                break
+            rounds_done += 1
+            for (u, path, v1, v2) in json_diffs(jk, j2, rank=rank):
+                res.fail(f'drift: round {rnd + 1}: {u} {path}: {v1} -> {v2}', uid=u)
+            jk = j2
+        after = sim_snapshot()
+        if after != before:
+            res.fail(f'SimParams: designed_network left {after}, found {before}')
+    finally:
+        SimParams.set_params({})
+    res.nontrivial = rounds_done > 0
+    res.stats.update({'trxline': 1, 'trxline_raman_flag': int(case['raman_flag']), f'trxline_{case["where"]}': 1,
+                      'trxline_amplifiers': n_amp})
+    return res
 
 
 def gen_prior(rng):
@@ -168,7 +263,8 @@ def gen_simparams(rng, tier):
 # ---------------------------------------------------------------------------------------------------------------------
 
 def run(case, drv):
-    return {'redesign': run_redesign, 'simparams': run_simparams, 'malformed': run_malformed}[case['kind']](case, drv)
+    return {'redesign': run_redesign, 'simparams': run_simparams, 'malformed': run_malformed,
+            'trxline': run_trxline}[case['kind']](case, drv)
 
 
 def jcopy(x):
@@ -825,6 +921,12 @@ def run_malformed(case, drv):
 
 
 def shrink_candidates(case):
+    if case['kind'] == 'trxline':
+        if len(case['spans']) > 1:
+            yield dict(case, spans=case['spans'][:-1])
+        if case['rounds'] > 1:
+            yield dict(case, rounds=1)
+        return
     if case['kind'] == 'malformed':
         for c in G.shrink_candidates(case):
             c['kind'] = 'malformed'
